@@ -97,3 +97,10 @@ for n in ["send_many_63_single", "send_many_64_single", "send_many_65_single", "
       opt=["REACH_OK", "REACH_ERR"])
 PROPERTIES.update({k: dict(bounds="", outside="", assumptions=[]) for k in ["C12", "C15"]})
 PROPERTIES.update({k: dict(bounds="", outside="", assumptions=[]) for k in ["C03", "C04", "C05", "C09", "C10", "C18"]})
+
+# ---- failed / nested sends (C14) -----------------------------------------------------------------
+for n in ["ser_fail_visit0", "ser_fail_visit1", "ser_fail_visit2", "ser_fail_visit3"]:
+    H(n, ["C14"], features="k_rec", sym="later message's value symbolic; number of embedded endpoints visited before the serialisation error concrete (name)", bounds="unwind 8; value with sender, region, sender")
+for n in ["ser_nested_ok", "ser_nested_inner_fails"]:
+    H(n, ["C14"], features="k_rec", sym="none (structure): a send inside a Serialize impl between two attachments of the enclosing value; the inner send completes / fails", bounds="unwind 8; nesting depth 2")
+PROPERTIES.update({k: dict(bounds="", outside="", assumptions=[]) for k in ["C14"]})
